@@ -343,7 +343,7 @@ def remove_stale_scratch(max_age_s=7200):
     for n in names:
         # only the per-run scratch directories of the property modules (not
         # the copies of /repo that the self-tests and seed tools make)
-        if n.startswith(("zcsim-c06-", "zcsim-c07-", "zcsim-c13-",
+        if n.startswith(("zcsim-c06-", "zcsim-c07-", "zcsim-c08-", "zcsim-c13-",
                          "zcsim-c18-",
                          "zcsim-c20-")):
             p = os.path.join(tmp, n)
